@@ -9021,7 +9021,10 @@ impl<'a> Parser<'a> {
                 }
             }
 
+            // ClickHouse `LIMIT n BY exprs`: only after a LIMIT that has a value (Display has
+            // nothing to hang the BY list on otherwise)
             let limit_by = if dialect_of!(self is ClickHouseDialect | GenericDialect)
+                && limit.is_some()
                 && self.parse_keyword(Keyword::BY)
             {
                 self.parse_comma_separated(Parser::parse_expr)?
